@@ -127,7 +127,8 @@ def gen_eq_pair(rng, n, poly):
             rows.append(r)
             cs.append(v)
     f = dict(f, alpha=rows, c=cs)
-    kind = rng.choice(['perm', 'zero_extra', 'perturb_small', 'perturb_mid', 'perturb_big', 'different', 'shifted_support', 'tree'])
+    kind = rng.choice(['perm', 'zero_extra', 'perturb_small', 'perturb_mid', 'perturb_big', 'different', 'shifted_support', 'tree',
+                       'large_coeff'])
     g = dict(f)
     idx = list(range(len(rows)))
     if kind == 'perm':
@@ -143,6 +144,16 @@ def gen_eq_pair(rng, n, poly):
             eps = F(1, 2 ** 29)   # ~1.9e-9: still below the tolerance
         c2 = list(cs)
         c2[i] = frac_str(F(c2[i]) + eps)
+        g = dict(f, c=c2)
+    elif kind == 'large_coeff':
+        # coefficients of size 10^6 that differ by a whole unit (or by 1/64): the tolerance of == is absolute, not relative
+        i = rng.randrange(len(rows))
+        big = F(rng.choice([10 ** 6, 3 * 10 ** 6, 2 ** 20]))
+        c1 = list(cs)
+        c1[i] = frac_str(big)
+        c2 = list(c1)
+        c2[i] = frac_str(big + rng.choice([1, -1, F(1, 64), 0]))
+        f = dict(f, c=c1)
         g = dict(f, c=c2)
     elif kind == 'different':
         g = st.gen_leaf(rng, n, poly, allow_dups=False)
